@@ -64,8 +64,22 @@ fn e2c_sections(cfg: &RunCfg) -> Vec<Box<dyn AnySection>> {
             }
         }
     }
+    // size dimensions (seeded round 3: defects gated on >= 8 / 9 / 16 primes at the level or on N >= 128 / 512 / 1024):
+    // long chains at a tiny degree pass through every number of primes in the abstract closure; production degrees at depth 1
+    let mut big: Vec<(String, usize, Vec<usize>, Noise)> = vec![("ckks_10x40_n4_zero".into(), 4, vec![40; 10], Noise::Zero), ("ckks_4x40_n1024_real".into(), 1024, vec![40; 4], Noise::Real)];
+    if th {
+        big.push(("ckks_18x40_n4_real".into(), 4, vec![40; 18], Noise::Real));
+        big.push(("ckks_4x40_n1024_zero".into(), 1024, vec![40; 4], Noise::Zero));
+        big.push(("ckks_9x40_n4096_zero".into(), 4096, vec![40; 9], Noise::Zero));
+        big.push(("ckks_3x50_n8192_real".into(), 8192, vec![50, 50, 60], Noise::Real));
+    }
+    let nbig = big.len();
+    for (name, n, bits, fam) in big {
+        plan.push((name, ParamSpec::new(Scheme::CKKS, n, chain(n, &bits), 0), fam));
+    }
     let count = plan.len();
     for (index, (name, spec, fam)) in plan.into_iter().enumerate() {
+        let is_big = index >= count - nbig;
         v.push(Box::new(E2cSection {
             name,
             spec,
@@ -73,10 +87,10 @@ fn e2c_sections(cfg: &RunCfg) -> Vec<Box<dyn AnySection>> {
             oracles: Oracles { forms: true, value: true },
             judged: vec!["accept", "refusal", "scale", "meta", "valid", "value", "forms"],
             seed: cfg.seed,
-            msgs: if th { vec![0, 1, 2, 3, 4, 5] } else { vec![2, 4, 5] },
-            lgs: if th { vec![10, 20, 30, 40] } else { vec![10, 20, 30] },
-            big_scale: true,
-            depth: 2,
+            msgs: if th && !is_big { vec![0, 1, 2, 3, 4, 5] } else { vec![2, 4, 5] },
+            lgs: if th && !is_big { vec![10, 20, 30, 40] } else if is_big { vec![20, 30] } else { vec![10, 20, 30] },
+            big_scale: !is_big,
+            depth: if is_big { 1 } else { 2 },
             abstract_closure: true,
             sclass_width: if th { 10.0 } else { 20.0 },
             index,
